@@ -25,7 +25,7 @@ RULE = ("Model-based histories on real stacks (virtual LAN + clock): two client 
         "to its own request, no request was served twice and no queue is left. Non-trivial: >= 2 simultaneously live requests to one "
         "peer, or an injected foreign/late/duplicate reply. Distinct by the operation list."
         " Also: aborts / segment-acks with the client role flag on live IDs; IOCB histories with chained requests, unconfirmed traffic beside them and aborts of finished IOCBs; segmented requests."
-        " The serving application answering everything it holds at once; on the wire a client is sent only the segments its own acks allow (histories without injected frames). One reduced copy of a generated shard runs with the library's debug tracing switched on (label tracing-on).")
+        " The serving application answering everything it holds at once; on the wire a client is sent only the segments its own acks allow (histories without injected frames). Two stacks that both ask and serve under equal invoke IDs with single-frame faults: outcomes as above, nothing handed to an application twice while pending, an unsegmented request repeated only exactly one APDU timeout after it was last sent. One reduced copy of a generated shard runs with the library's debug tracing switched on (label tracing-on).")
 ASSUMPTIONS = [
     "client APDU timeout (1 s) is shorter than the servers' application timeout (1000 s) so that 'while the original is still being processed' is observable",
     "a request that reuses a (client, invoke ID) pair the server is still processing is a duplicate by design; the model excuses it from the seen-once clause",
@@ -556,7 +556,167 @@ def run_io_history(ops, nservers):
     return fails[:2], stats
 
 
+_peer = None
+
+
+def peer_app():
+    """an application that asks and serves: both roles on one stack"""
+    global _peer
+    if _peer is None:
+        Client, Server = apps()
+
+        class Peer(Client, Server):
+            def __init__(self, device):
+                Client.__init__(self, device)
+                self.seen = []
+                self.pending = []
+        _peer = Peer
+    return _peer
+
+
+BIDIR_APDU_TIMEOUT = 3.0
+
+
+def run_bidir(ops, faults, segt=500, win=2):
+    """two stacks that both ask and serve, with equal invoke IDs under way in both directions at once, segmented answers and
+    single-frame faults; no injected frames.  ops: ["req", who, invoke, big] / ["ans", who, k] / ["ansall", who] / ["adv", dt]"""
+    L = lablib()
+    Peer = peer_app()
+    lab = StackLab()
+    boot.swallowed.take()
+    macs = (1, 2)
+    st = dict((m, lab.add_stack(m, Peer, retries=2, apdu_timeout=int(BIDIR_APDU_TIMEOUT * 1000), seg_timeout=segt, app_timeout=1000000,
+                                max_apdu=206, window=win)) for m in macs)
+    lab.net.plan = dict((int(k), tuple(v)) for k, v in faults.items())
+    fails = []
+    live = {}           # (asker, invoke) -> token
+    finished = []       # (asker, invoke, token, kind)
+    used = set()
+    conf_seen = dict((m, 0) for m in macs)
+    stats = dict(max_live_per_peer=0, injected=0, matched_injections=0, refused_collisions=0, both_directions_same_id=0, requests=0)
+    ntok = [0]
+
+    def process():
+        for m in macs:
+            confs = st[m].app.confs
+            while conf_seen[m] < len(confs):
+                t, src, inv, kind, payload = confs[conf_seen[m]]
+                conf_seen[m] += 1
+                tok = live.pop((m, inv), None)
+                if tok is None:
+                    fails.append(("bidir:delivered-for-no-live-request:%s" % kind, "stack %d got %s with invoke ID %r from %r; nothing of its own is live under that ID" % (m, kind, inv, src)))
+                    continue
+                if kind == "ack" and payload != b"R" + tok:
+                    fails.append(("bidir:crossed-reply", "stack %d asked %r... (invoke %d) and was confirmed with %r..." % (m, tok[:8], inv, (payload or b"")[:9])))
+                elif kind not in ("ack", "abort"):
+                    fails.append(("bidir:crossed-reply:%s" % kind, "stack %d, invoke %d: confirmed with a %s nobody sent" % (m, inv, kind)))
+                finished.append((m, inv, tok, kind))
+        # a request still being processed is not handed to the application a second time
+        for m in macs:
+            keys = [(a.pduSource.addrAddr[0], a.apduInvokeID) for a in st[m].app.pending]
+            for key in set(keys):
+                if keys.count(key) > 1:
+                    fails.append(("bidir:retransmission-handed-to-application-again", "stack %d holds %d copies of request %r" % (m, keys.count(key), key)))
+
+    def settle():
+        lab.settle()
+        process()
+
+    def answer(m, k):
+        app = st[m].app
+        if app.pending:
+            app.answer(k % len(app.pending))
+
+    for op in ops:
+        k = op[0]
+        try:
+            if k == "req":
+                m = macs[op[1] % 2]
+                inv = op[2]
+                if (m, inv) in used:
+                    continue        # an ID is used once per asker: no answer to an older request can be mistaken for this one's
+                used.add((m, inv))
+                ntok[0] += 1
+                tok = b"T%05d" % ntok[0]
+                if op[3]:
+                    tok += bytes((ntok[0] * 13 + i * 7) & 0xFF for i in range(700 if op[3] is True or op[3] == 1 else 2200))
+                req = L.apdu.ConfirmedPrivateTransferRequest(vendorID=999, serviceNumber=1)
+                req.serviceParameters = L.Any(L.OctetString(tok))
+                req.pduDestination = L.Address(3 - m)
+                req.apduInvokeID = inv
+                st[m].app.request(req)
+                live[(m, inv)] = tok
+                stats["requests"] += 1
+                if (3 - m, inv) in live:
+                    stats["both_directions_same_id"] += 1
+                stats["max_live_per_peer"] = max(stats["max_live_per_peer"], len([1 for key in live if key[0] == m]))
+            elif k == "ans":
+                answer(macs[op[1] % 2], op[2])
+            elif k == "ansall":
+                while st[macs[op[1] % 2]].app.pending:
+                    answer(macs[op[1] % 2], 0)
+            elif k == "adv":
+                lab.run(lab.now + op[1])
+                VC.clk.now = max(VC.clk.now, lab.now)
+        except Exception as err:
+            fails.append(("bidir:step-raised:%s" % type(err).__name__, "step %r raised %r" % (op, err)))
+            break
+        settle()
+        if fails:
+            break
+    if not fails:
+        for rnd in range(12):
+            for m in macs:
+                while st[m].app.pending:
+                    answer(m, 0)
+            settle()
+            lab.run(lab.now + 60.0)
+            VC.clk.now = max(VC.clk.now, lab.now)
+            process()
+            if not live and not any(st[m].app.pending for m in macs):
+                break
+        for (m, inv), tok in sorted(live.items()):
+            fails.append(("bidir:request-without-outcome", "stack %d, invoke %d (%r...): no confirmation although everything was answered and a minute passed" % (m, inv, tok[:8])))
+        for m in macs:
+            if st[m].smap.clientTransactions or st[m].smap.serverTransactions:
+                fails.append(("bidir:residue", "stack %d keeps %d client / %d server transactions" % (m, len(st[m].smap.clientTransactions), len(st[m].smap.serverTransactions))))
+    # the wire: an unsegmented request is repeated only when its own APDU timeout has run out, i.e. exactly that long after it
+    # was last sent; anything else means something that was not meant for this transaction touched its timer
+    sent = {}
+    nfaults = 0
+    for f in lab.frames():
+        if f["act"][0] != "pass":
+            nfaults += 1
+        a = f.get("apci")
+        if not a or a["type"] != 0 or a.get("seg"):
+            continue
+        key = (f["src"], a["invoke"], bytes(f["data"]))
+        if key in sent:
+            gap = f["t"] - sent[key]
+            if abs(gap - BIDIR_APDU_TIMEOUT) > 1e-6:
+                fails.append(("bidir:request-repeated-off-schedule", "stack %r repeats its request (invoke %d) %.3f s after sending it; its APDU timeout is %.1f s"
+                              % (f["src"], a["invoke"], gap, BIDIR_APDU_TIMEOUT)))
+        sent[key] = f["t"]
+    stats["faults_applied"] = nfaults
+    sw = [r for r in boot.swallowed.take() if r[0]]
+    if sw and fails:
+        fails = [(fails[0][0] + ":%s@%s" % (sw[0][0], sw[0][1]), fails[0][1] + " swallowed %r" % (sw[:2],))] + fails[1:]
+    return fails[:4], stats
+
+
 def judge(case):
+    if case.get("k") == "bidir":
+        try:
+            with watchdog(120):
+                fails, stats = run_bidir(case["ops"], case.get("faults", {}), case.get("segt", 500), case.get("win", 2))
+        except Stall:
+            return Verdict([("stall", "the lab did not come back within 120 s of real time")], True, ("stall",))
+        labels = ["bidir"]
+        if stats["both_directions_same_id"]:
+            labels.append("bidir:same-id-both-directions")
+        if stats["faults_applied"]:
+            labels.append("bidir:fault-applied")
+        return Verdict(fails, stats["both_directions_same_id"] > 0, labels)
     try:
         with watchdog(120):
             if case.get("k") == "io":
@@ -596,6 +756,9 @@ def plan(tier, seed):
         specs.append(dict(name="iocb-%d" % i, kind="io", n=600 if tier == "quick" else 20000))
     specs.append(dict(name="wrap", kind="wrap", tier=tier))
     specs.append(dict(name="twins", kind="twins"))
+    specs.append(dict(name="both-directions-directed", kind="bidir-directed", tier=tier))
+    for i in range(4):
+        specs.append(dict(name="both-directions-%d" % i, kind="bidir", n=300 if tier == "quick" else 8000))
     # once more with the library's debug tracing switched on
     specs.append(dict(name="tracing-histories", kind="hist", n=150 if tier == "quick" else 3000, tracing=True))
     specs.append(dict(name="tracing-iocb", kind="io", n=100 if tier == "quick" else 3000, tracing=True))
@@ -651,6 +814,31 @@ def run(spec, ctx):
         for ahead in (1, 2, 3, 5):
             ops = [["req", 0, 0, ahead + 1]] + [["req", 0, 0, None] for _ in range(ahead + 3)] + [["adv", 0.5]]
             ctx.check(dict(k="hist", ops=ops, nservers=1))
+    elif kind == "bidir-directed":
+        # both stacks ask one another under the same invoke ID; one answer travels in segments; every single frame of the exchange is
+        # dropped, doubled or delayed in turn
+        for big in (True, 2):
+            for win in (1, 2, 4) if spec["tier"] == "thorough" else (2,):
+                for first in (0, 1):
+                    for pause in (None, 0.7, 1.2):
+                        # (with a pause the answer finds the asker in whatever state the fault has left it in)
+                        tail = ([["adv", pause]] if pause else []) + [["ans", 1 - first, 0], ["adv", 10.0]]
+                        ops = ([["req", 1 - first, 1, False], ["req", first, 1, big]] if first == 0 else [["req", first, 1, big], ["req", 1 - first, 1, False]]) + tail
+                        ctx.check(dict(k="bidir", ops=ops, faults={}, win=win))
+                        for i in range(0, 14 if big is True else 36):
+                            for act in (["drop"], ["dup"], ["delay", 0.2]) if spec["tier"] == "thorough" or big is True else (["drop"], ["dup"]):
+                                ctx.check(dict(k="bidir", ops=ops, faults={str(i): act}, win=win))
+    elif kind == "bidir":
+        from hypothesis import strategies as st
+        req = st.tuples(st.just("req"), st.integers(0, 1), st.sampled_from([1, 1, 1, 2, 2, 3]), st.sampled_from([False, False, True, True, 2])).map(list)
+        ans = st.tuples(st.just("ans"), st.integers(0, 1), st.integers(0, 3)).map(list)
+        ansall = st.tuples(st.just("ansall"), st.integers(0, 1)).map(list)
+        adv = st.tuples(st.just("adv"), st.sampled_from([0.1, 0.4, 0.6, 1.0, 2.9, 3.0, 3.1, 10.0])).map(list)
+        act = st.sampled_from([["drop"], ["drop"], ["dup"], ["delay", 0.2], ["delay", 0.7]])
+        faults = st.dictionaries(st.integers(0, 50).map(str), act, max_size=3)
+        strat = st.tuples(st.lists(st.one_of(req, req, req, ans, ans, ansall, adv), min_size=2, max_size=16), faults, st.sampled_from([500, 1000]), st.sampled_from([1, 2, 2, 4])) \
+            .map(lambda t: dict(k="bidir", ops=t[0], faults=t[1], segt=t[2], win=t[3]))
+        ctx.for_all(strat, spec["n"])
     elif kind == "twins":
         # equal invoke IDs from two clients at one server, answers in segments and under way at the same time
         for n in (1, 2, 4):
